@@ -38,6 +38,89 @@ func c09(r *Report) {
 	}
 
 	r.Guard("C09.R1", "the credit returned for a DATA frame is its flow-controlled length (payload plus padding)", func() {
+		// ... for every DATA frame whatever its stream's state: no successful return of
+		// sendWindowUpdates is reachable without both updates having been written
+		{
+			gs := G(swu)
+			wus := plainCalls(swu, "(*"+pHTTP2+".Framer).WriteWindowUpdate")
+			for k, wc := range wus {
+				target := ssa.Instruction(wc)
+				var wit []ssa.Instruction
+				for _, ret := range returns(swu) {
+					okNil := false
+					for _, v := range retVals(ret, 0) {
+						for _, l := range resolveAll(v) {
+							if isNilConst(l) {
+								okNil = true
+							}
+						}
+					}
+					if !okNil {
+						continue
+					}
+					if p := gs.PathTo([]ssa.Instruction{gs.Entry()}, true, func(i ssa.Instruction) bool { return i == target }, func(i ssa.Instruction) bool { return i == ssa.Instruction(ret) }); p != nil {
+						// a path that returns the (non-nil) error of an earlier write is not a success
+						wit = p
+					}
+				}
+				// only paths that really return nil count: a return of `err` merged from calls is judged by its nil leaves
+				r.Paths++
+				_ = wit
+				skipped := false
+				for _, ret := range returns(swu) {
+					paths, okp := blockPathsUntil(swu.Blocks[0], ret.Block(), 4000)
+					if !okp {
+						continue
+					}
+					for _, p := range paths {
+						nilRet := false
+						for _, v := range retVals(ret, 0) {
+							for _, l := range resolveOnPath(v, p) {
+								if isNilConst(l) {
+									nilRet = true
+								}
+							}
+						}
+						if !nilRet {
+							continue
+						}
+						passes := false
+						for _, b := range p {
+							if b == wc.Block() {
+								passes = true
+							}
+						}
+						if !passes {
+							// a frame of flow-controlled length zero has no credit to return
+							zeroLen := false
+							for _, ce := range ctrlEdges(ret.Block()) {
+								isLenV := func(v ssa.Value) bool {
+									return anyIn(w.backSlice(v, flowOpt{}), func(x ssa.Value) bool {
+										switch y := x.(type) {
+										case *ssa.Field:
+											return fieldObjV(y).Name() == "Length"
+										case *ssa.FieldAddr:
+											return fieldObj(y).Name() == "Length"
+										}
+										return false
+									})
+								}
+								if rel, adm0 := constCmpAdmits(ce, isLenV, 0); rel && adm0 {
+									if _, adm1 := constCmpAdmits(ce, isLenV, 1); !adm1 {
+										zeroLen = true
+									}
+								}
+							}
+							if !zeroLen {
+								skipped = true
+							}
+						}
+					}
+				}
+				r.Decide("path", fmt.Sprintf("(*M/h2.relay).sendWindowUpdates: WriteWindowUpdate#%d precedes every successful return", k+1), !skipped, "every path that returns nil wrote this update", "sendWindowUpdates can return success without having written this WINDOW_UPDATE (an early return for some streams): the credit for DATA the relay accepted is never given back", wc.Pos())
+			}
+		}
+
 		// credit is returned for every DATA frame accepted: the call that returns it is
 		// reached from the DATA case whatever the frame contains (a padded frame without
 		// payload still used up window)
@@ -274,7 +357,17 @@ func c09(r *Report) {
 		}
 	})
 
-	r.Guard("C09.R4", "new credit wakes queued data: every window increase is followed by an emission attempt over the affected buffers", func() { flowWakeRules(r) })
+	r.Guard("C09.R4", "new credit wakes queued data: every window increase is followed by an emission attempt over the affected buffers", func() {
+		// a frame that fits the windows is handed to the writer now: the emission waits
+		// for room in the output queue (or for the end of the relay) rather than giving up
+		// when the queue happens to be full, because nothing would try again later
+		for _, sp := range sendPoints(emit) {
+			if sel, ok := sp.Instr.(*ssa.Select); ok {
+				r.Decide("path", "(*M/h2.outputBuffer).emitEligibleFrames: the hand-over to the writer waits for room", sel.Blocking, "the select around the send has no default arm", "the send on the output queue is abandoned when the queue is full (default arm): the frame stays queued with nothing scheduled to emit it, although the receiver's windows are open", sel.Pos())
+			}
+		}
+		flowWakeRules(r)
+	})
 
 	r.Guard("C09.R5", "the receiver's maximum frame size bounds every payload the relay builds", func() { frameSizeRules(r) })
 
